@@ -815,3 +815,36 @@ func (c *Client) UpgradeTo(target string, hook func()) error {
 	}
 	return nil
 }
+
+// Candidate returns a client object bound to an existing session id, for driving an
+// upgrade candidate by hand.
+func (w *World) Candidate(sid string, rev int) *Client {
+	return &Client{W: w, Cfg: ClientCfg{Rev: rev, Transport: "polling"}, Sid: sid, postSem: make(chan struct{}, 1)}
+}
+
+// DialCandidateWS opens a WebSocket candidate for the client's session id.
+func (c *Client) DialCandidateWS() error { return c.dialWS(true) }
+
+// OpenCandidateWT opens an in-memory WebTransport candidate for the client's session id.
+func (c *Client) OpenCandidateWT() error { return c.openWT(true) }
+
+// Pause stops the polling loop after its pending poll has returned.
+func (c *Client) Pause() {
+	c.mu.Lock()
+	c.pausing = true
+	running := c.readerDone != nil
+	c.mu.Unlock()
+	if running {
+		c.WaitReader()
+	}
+}
+
+// Resume restarts the polling loop after Pause.
+func (c *Client) Resume() {
+	c.mu.Lock()
+	c.pausing = false
+	c.mu.Unlock()
+	if c.Ended() == "" {
+		c.StartReader()
+	}
+}
